@@ -53,18 +53,35 @@ def make_range(rng, msgs):
     return TimeRange(start=s, end=e, absolute=False, p1_t0=Timestamp(t0)), {'kind': kind, 'start': s, 'end': e, 't0': t0}
 
 
-def one_case(ctx, data, path, msgs, lines, pending, flags=None, whole_seconds=False):
+def range_from_dict(trd):
+    from fusion_engine_client.utils.time_range import TimeRange
+    from fusion_engine_client.messages import Timestamp
+    if trd is None:
+        return None
+    if trd['kind'] == 'abs':
+        return TimeRange(start=trd['start'], end=trd['end'], absolute=True)
+    if trd['kind'] == 'rel':
+        return TimeRange(start=trd['start'], end=trd['end'], absolute=False)
+    return TimeRange(start=trd['start'], end=trd['end'], absolute=False, p1_t0=Timestamp(trd['t0']))
+
+
+def one_case(ctx, data, path, msgs, lines, pending, flags=None, fixed=None):
     rng = ctx.rng
     alltypes = sorted(set(m['type'] for m in msgs)) or [10000]
-    types = rng.choice([None, None, [rng.choice(alltypes)], rng.sample(alltypes, min(len(alltypes), 2)), [13004], [424]])
-    if rng.random() < 0.65:
-        tr, trd = make_range(rng, msgs)
+    if fixed is not None:       # a recorded case (corpus / replay)
+        types, trd, sources, max_bytes = fixed['types'], fixed['time_range'], fixed['sources'], fixed['max_bytes']
+        tr = range_from_dict(trd)
+        flags = tuple(fixed.get('flags', [True, False, False, True, True]))
     else:
-        tr, trd = None, None
-    srcs = sorted(set(m['src'] for m in msgs)) or [0]
-    sources = rng.choice([None, None, [rng.choice(srcs)], srcs[:2], [77]])
-    max_bytes = rng.choice([None, None, None, 0, 23, 24, len(data) // 2, max(0, len(data) - 1), len(data), len(data) + 10] +
-                           ([msgs[len(msgs) // 2]['offset'] + msgs[len(msgs) // 2]['size']] if msgs else []))
+        types = rng.choice([None, None, [rng.choice(alltypes)], rng.sample(alltypes, min(len(alltypes), 2)), [13004], [424]])
+        if rng.random() < 0.65:
+            tr, trd = make_range(rng, msgs)
+        else:
+            tr, trd = None, None
+        srcs = sorted(set(m['src'] for m in msgs)) or [0]
+        sources = rng.choice([None, None, [rng.choice(srcs)], srcs[:2], [77]])
+        max_bytes = rng.choice([None, None, None, 0, 23, 24, len(data) // 2, max(0, len(data) - 1), len(data), len(data) + 10] +
+                               ([msgs[len(msgs) // 2]['offset'] + msgs[len(msgs) // 2]['size']] if msgs else []))
     if flags is None:
         flags = tuple(rng.random() < 0.6 for _ in range(5))
     res = read_filtered(path, types, tr, sources, max_bytes, flags)
@@ -93,7 +110,23 @@ def judge(ctx, replay, res, flags, msgs, data, model_out, spec_out):
     by_off = {m['offset']: m for m in msgs}
     got = []
     search_from = 0
+    import numbers
+    from fusion_engine_client.messages import MessageHeader, MessagePayload
+
+    def piece_ok(name, v):
+        if name == 'header':
+            return isinstance(v, MessageHeader)
+        if name == 'payload':
+            return v is None or isinstance(v, MessagePayload)
+        if name == 'bytes':
+            return isinstance(v, (bytes, bytearray, memoryview))
+        return isinstance(v, numbers.Integral) or hasattr(v, '__index__')
     for tup in out:
+        if len(tup) != len(names) or not all(piece_ok(n, v) for n, v in zip(names, tup)):
+            ctx.violation('C10/result-shape-wrong',
+                          'with return flags (header, payload, bytes, offset, index) = %s the reader returned %s' %
+                          (list(flags), [type(v).__name__ for v in tup]), replay)
+            return
         d = dict(zip(names, tup))
         o = None
         if 'index' in d:
@@ -164,6 +197,12 @@ def judge(ctx, replay, res, flags, msgs, data, model_out, spec_out):
 def run(ctx, budget):
     rng = ctx.rng
     lines, pending = [], []
+    for k, r in enumerate(fv.corpus('C10')):      # regression corpus first
+        if 'file' in r and 'types' in r:
+            data = bytes.fromhex(r['file'])
+            path = ic.write_log(data, 'c10_corpus_%d.p1log' % k)
+            one_case(ctx, data, path, rc.unfiltered(path), lines, pending, fixed=r)
+            ctx.count('corpus_cases')
     for _ in range(budget):
         srcs = rng.choice([(0,), (0, 1), (0, 1, 5)])
         data = rc.make_log(rng, rng.choice([0, 1, 3, 6, 10, 16, 30]), sources=srcs, untimed_first=rng.choice([None, None, 2]))
@@ -214,5 +253,12 @@ def check(ctx):
 
 def replay(ctx, path):
     obj = json.load(open(path))
-    print(json.dumps({k: v for k, v in obj['input'].items() if k != 'file'}))
-    return 1
+    r = obj['input']
+    print(json.dumps({k: v for k, v in r.items() if k != 'file'}))
+    data = bytes.fromhex(r['file'])
+    p = ic.write_log(data)
+    lines, pending = [], []
+    one_case(ctx, data, p, rc.unfiltered(p), lines, pending, fixed=r)
+    outs = ctx.driver(lines)
+    judge(ctx, *pending[0], outs[0], outs[1])
+    return fv.finish(ctx, 'proof', None)
